@@ -653,6 +653,23 @@ theorem code_loop_ends_only_by_quit (E : Mimic.Py.Env S) (cp : S → Nat) (pc : 
   ⟨loop_ends_only E cp pc coldef parse app ur fls fcd other err af c ps, loop_quit_ends E cp pc coldef parse app ur fls fcd other err af c ps, fun hno => loop_quit_iff E cp pc coldef parse app ur fls fcd other err af hno c ps⟩
 
 open MimicProofs.CommandLoop in
+/-- **whole exchanges of the two simplest kinds, on the code**: a command byte the server does not support is answered by exactly
+    one ERR and a COM_PING by exactly one OK — each drained, followed by the sequence reset, with nothing else written or changed,
+    and the loop goes on; whatever bytes follow the command byte -/
+theorem code_unsupported_and_ping_exchanges (E : Mimic.Py.Env S) (cp : S → Nat) (pc : Nat → Mimic.Py.Bytes) (coldef : Nat → Nat → Mimic.Py.Bytes)
+    (parse : Connection S → Mimic.Py.Bytes → Option (ComStmtExecute S)) (app : S → Option (ResultSet S))
+    (ur : S → Bool) (fls : Mimic.Extracted.ParsersCode.ComFieldList S → S) (fcd : Nat → S → Mimic.Py.Bytes → Mimic.Py.Bytes)
+    (other : Nat → Connection S → Mimic.Py.Bytes → Except (Connection S) (Connection S)) (err : Connection S → Mimic.Py.Bytes) (af : Nat → Connection S → Mimic.Py.Bytes → Option (Connection S))
+    (c : Connection S) (rest : Mimic.Py.Bytes) :
+    (∀ command : UInt8, command.toNat ∉ dispatched →
+      command_step E cp pc coldef parse app ur fls fcd other err af c (command :: rest)
+        = ({ c with _executing := false, out := c.out ++ [Ev.write (err { c with _executing := false }) true, Ev.reset_seq] }, true)) ∧
+    (∃ (e : Bool) (a l w f : Nat), command_step E cp pc coldef parse app ur fls fcd other err af c (14 :: rest)
+      = ({ c with _executing := false,
+                  out := c.out ++ [Ev.write (ok ({ c with _executing := true } : Connection S) e a l w f) true, Ev.reset_seq] }, true)) :=
+  ⟨fun command h => unsupported_exchange E cp pc coldef parse app ur fls fcd other err af c command rest h, ping_exchange E cp pc coldef parse app ur fls fcd other err af c rest⟩
+
+open MimicProofs.CommandLoop in
 /-- **COM_QUIT is one of the no-reply commands**: its iteration writes nothing ("or nothing for the no-reply commands"), changes
     nothing but the sequence reset and the executing flag, and ends the loop — whatever bytes follow the command byte -/
 theorem code_quit_is_not_answered (E : Mimic.Py.Env S) (cp : S → Nat) (pc : Nat → Mimic.Py.Bytes) (coldef : Nat → Nat → Mimic.Py.Bytes)
